@@ -183,7 +183,8 @@ def gen_case(rng, nops, reorgs=True):
             src = rng.weighted([(0, 5), (1, 5), (2, 2)])
             if not T.tx_allowed(t, src):
                 src = rng.choice([0, 1])
-            ops.append(["tx", t, src])
+            # a peer may wrap the tx in an extended message (extmsg): same meaning, another handler path
+            ops.append(["tx", t, src, 1] if src != 2 and rng.chance(1, 5) else ["tx", t, src])
             T.note_tx(t, src)
         elif k == "inv":
             ops.append(["inv", rng.choice(ids), int(rng.chance(2, 3))])
@@ -331,6 +332,9 @@ def pattern_cases():
         ops = [["setinsync", 1], ["tx", 4, 0]] + first + [["advance", 75000], ["delaycheck"], ["block", 2, 1, [4], 1], ["unconf"],
                ["restart"], ["setinsync", 1], ["unconf"], ["advance", 75000], ["delaycheck"], ["unconf"], ["gettx", 4]]
         res.append((U, ops))
+    for src in (0, 1):
+        res.append((U, [["setinsync", 1], ["tx", 4, src, 1], ["unconf"], ["advance", 75000], ["delaycheck"], ["unconf"], ["tx", 1, 1, 1],
+                        ["tx", 2, 0, 1], ["advance", 75000], ["delaycheck"], ["gettx", 4]]))
     res += reorg_patterns(U)
     return res
 
